@@ -13,5 +13,5 @@ CONSTANTS
 VIEW MCView
 CONSTRAINT LevelBound
 INVARIANTS MergeCommutes MergeAssoc MergeIdem Converge ClosureModKnown
-PROPERTIES AuthorisedModKnown
+PROPERTIES Authorised
 CHECK_DEADLOCK FALSE
